@@ -56,7 +56,7 @@ func checkC01(ctx *Ctx) *Result {
 				good, detail = false, "allow-all answer without the empty-tree atom"
 			}
 			// under-grant
-			if isPreflightAtoms(rp) {
+			if isPreflightPath(rp) {
 				if rp.StatusTag == successStatusTag && len(acao) == 0 {
 					good, detail = false, "a preflight succeeds without Access-Control-Allow-Origin"
 				}
